@@ -77,6 +77,13 @@ func (pnf *PageNumberFinder) FindPagination(root *html.Node, pageURL *nurl.URL) 
 	pagination.PrevPage = ""
 	pagination.NextPage = paramInfo.NextPagingURL
 
+	// "javascript:" links only serve as placeholders when looking for adjacent
+	// page numbers, they must never be reported as the next page.
+	if strings.HasPrefix(pagination.NextPage, "javascript:") {
+		pagination.NextPage = ""
+		return
+	}
+
 	// If next page URL is empty but there are related page info, it means we are in
 	// the last page, so the last page info is for previous page.
 	nPageInfo := len(paramInfo.AllPageInfo)
